@@ -92,7 +92,21 @@ func TestShapes(t *testing.T) {
 		{"extra_a atomic.Int64 converted to uint64", "storeID atomic.Int64", "store.id = strconv.AppendUint(store.id, uint64(mux.storeID.Add(1)), 36)", "", true},
 		{"int64 + AddInt64 converted to uint64", "storeID int64", "store.id = strconv.AppendUint(store.id, uint64(atomic.AddInt64(&mux.storeID, 1)), 36)", "", true},
 		{"Int64 through a local", "storeID atomic.Int64", "seq := mux.storeID.Add(1)\n\tstore.id = strconv.AppendUint(store.id, uint64(seq), 36)", "", true},
+		// battery 3
+		{"id assigned lazily in GetID through a nested id source held by the Store", "ids idSource", "_ = store",
+			"type idSource struct {\n\tprefix string\n\tseq atomic.Uint64\n}\n" +
+				"func (src *idSource) next() string { n := src.seq.Add(1); return src.prefix + strconv.FormatUint(n, 36) }\n" +
+				"type lazy struct{ ids *idSource; id string }\n" +
+				"func (s *lazy) GetID() string { if s.id == \"\" { s.id = s.ids.next() }; return s.id }", true},
+		{"id made in the pool's New closure", "storeID atomic.Uint64", "_ = store",
+			"func (mux *Mux) newStore() func() any { return func() any { return strconv.AppendUint(nil, mux.storeID.Add(1), 36) } }", true},
 		// ---- must fail
+		{"lazy id, 32-bit sequence", "ids idSource", "_ = store",
+			"type idSource struct{ seq atomic.Uint32 }\n" +
+				"func (src *idSource) next() string { n := src.seq.Add(1); return strconv.FormatUint(uint64(n), 36) }", false},
+		{"lazy id, truncated", "ids idSource", "_ = store",
+			"type idSource struct{ seq atomic.Uint64 }\n" +
+				"func (src *idSource) next() string { n := src.seq.Add(1) % 100000; return strconv.FormatUint(n, 36) }", false},
 		{"nested struct with a 32-bit counter", "ids idSource", "store.id = mux.ids.next(store.id)",
 			"type idSource struct{ seq atomic.Uint32 }\n" +
 				"func (src *idSource) next(buf []byte) []byte { return strconv.AppendUint(buf, uint64(src.seq.Add(1)), 36) }", false},
